@@ -8,6 +8,8 @@ Labelled bounded: never counted as proved."""
 import copy as _copy
 import itertools
 import pickle
+import os
+import sys
 from . import _env  # noqa: F401
 
 NAME = 'bounded:FrozenDict alias probes + struct.dataclass pytree layouts'
@@ -217,7 +219,75 @@ def _check_dataclasses():
       return n, f'struct.field with a shared metadata dict ({order}): changing the static field does not change the treedef'
     if md != {'doc': 'shared between the fields'}:
       return n, f'struct.field changed the metadata dict it was given: {md}'
+  # struct.PyTreeNode: base class, subclass adding a field, subclass adding only methods
+  class Base(struct.PyTreeNode):
+    w: jax.Array
+    k: int = struct.field(pytree_node=False, default=3)
+
+  class WithField(Base):
+    b: jax.Array = None
+
+  class MethodsOnly(Base):
+    def double(self):
+      return self.replace(w=self.w * 2)
+
+  class MethodsOnly2(MethodsOnly):
+    pass
+  for cls in (Base, WithField, MethodsOnly, MethodsOnly2):
+    n += 1
+    what = f'PyTreeNode class {cls.__name__} ({"base" if cls is Base else "subclass of " + cls.__mro__[1].__name__})'
+    p = cls(w=jnp.ones((2,)), b=jnp.zeros((2,))) if cls is WithField else cls(w=jnp.ones((2,)))
+    want_leaves = 2 if cls is WithField else 1
+    leaves, treedef = jax.tree_util.tree_flatten(p)
+    if len(leaves) != want_leaves or any(isinstance(l, Base) for l in leaves):
+      return n, f'{what}: pytree leaves are {leaves!r}, expected exactly the data fields'
+    q = jax.tree_util.tree_map(lambda x: x + 1, p)
+    if type(q) is not cls or q.k != 3 or float(q.w[0]) != 2.0:
+      return n, f'{what}: tree_map did not rebuild the same class with the same static fields'
+    if jax.tree_util.tree_structure(p.replace(k=4)) == treedef:
+      return n, f'{what}: changing a static field does not change the treedef (no retrace)'
+    for attr in ('k', 'w', 'brand_new_attribute'):
+      try:
+        setattr(p, attr, 9)
+        return n, f'{what}: instances are not frozen (assignment to {attr!r} accepted)'
+      except (dataclasses.FrozenInstanceError, AttributeError, TypeError):
+        pass
+    try:
+      j = jax.jit(lambda t: t.replace(w=t.w * 2))(p)
+      g = jax.grad(lambda t: (t.w * t.w).sum())(p)
+      v = jax.vmap(lambda t: t.w.sum())(jax.tree_util.tree_map(lambda x: jnp.stack([x, x]), p))
+    except Exception as e:  # noqa
+      return n, f'{what}: jit / grad / vmap reject the instance: {e!r}'[:300]
+    if type(j) is not cls or float(j.w[0]) != 2.0 or j.k != 3 or type(g) is not cls or float(g.w[0]) != 2.0 or v.shape != (2,):
+      return n, f'{what}: jit / grad / vmap did not rebuild the class'
   return n, None
+
+
+_WRITER = '''
+import sys, pickle
+from flax.core import freeze
+fd = freeze({'params': {'dense': {'kernel': 'k', 'bias': 1}}, 'name': 'model', 'n': (1, 2)})
+hash(fd)                      # the cached hash of THIS process
+sys.stdout.buffer.write(pickle.dumps({'hashed': fd, 'fresh': freeze({'a': {'b': 'c'}})}))
+'''
+
+
+def _check_cross_process_pickle():
+  """a FrozenDict pickled by another interpreter (other str-hash seed) compares AND hashes like a fresh one"""
+  import subprocess
+  from flax.core import freeze
+  env = dict(os.environ, PYTHONHASHSEED='101', PYTHONPATH=os.pathsep.join(p for p in sys.path if p))
+  out = subprocess.run([sys.executable, '-c', _WRITER], env=env, stdout=subprocess.PIPE, stderr=subprocess.PIPE, timeout=300)
+  if out.returncode != 0:
+    raise RuntimeError('writer process failed: ' + out.stderr.decode()[-500:])
+  got = pickle.loads(out.stdout)
+  for tag, ref in (('hashed', freeze({'params': {'dense': {'kernel': 'k', 'bias': 1}}, 'name': 'model', 'n': (1, 2)})), ('fresh', freeze({'a': {'b': 'c'}}))):
+    g = got[tag]
+    if g != ref:
+      return f'a FrozenDict unpickled from another process ({tag} before pickling) is not equal to the same contents built here'
+    if hash(g) != hash(ref) or g not in {ref} or {g: 1}.get(ref) != 1:
+      return f'a FrozenDict unpickled from another process ({tag} before pickling) is equal to, but hashes differently from, the same contents built here (set / dict-key lookups miss)'
+  return None
 
 
 def run(tier, seed):
@@ -236,11 +306,21 @@ def run(tier, seed):
     cases += n
     if msg:
       fails.append(dict(inputs=dict(check='struct.dataclass layouts'), observed=msg[:400], violated='dataclass-pytree'))
-  return dict(name=NAME, cases=cases, distinct=cases, bound='nested dicts of depth <= 3 with dict/list/tuple leaves x API calls; 5 dataclass layouts',
+  if not fails:
+    cases += 2
+    try:
+      msg = _check_cross_process_pickle()
+    except Exception as e:  # noqa
+      msg = f'raised {e!r}'
+    if msg:
+      fails.append(dict(inputs=dict(check='pickle written by another interpreter process (PYTHONHASHSEED=101)'), observed=msg[:400], violated='pickle-equal-value'))
+  return dict(name=NAME, cases=cases, distinct=cases, bound='nested dicts of depth <= 3 with dict/list/tuple leaves x API calls; 7 dataclass layouts; 4 PyTreeNode classes (base, +field, methods-only, methods-only twice); 2 FrozenDicts pickled in another process',
               failures=fails[:2], error=None)
 
 
 def replay(inputs):
+  if 'pickle' in inputs.get('check', ''):
+    return _check_cross_process_pickle() is None
   if 'source' in inputs:
     return _check_source(eval(inputs['source'])) is None
   return _check_dataclasses()[1] is None
